@@ -91,8 +91,7 @@ fn main() {
 	];
 	let rule = "every ENV order (operation sends, child exit, ticks, handle drop) of every scenario, times every SELECT/SCHED/PREEMPT deviation set within the pass bound; an execution is non-trivial if it spawned at least one child; distinct = distinct observation logs";
 	let tier = args.tier;
-	let is_c09 = prop == "C09";
-	let post: Option<orch::Post<'_>> = if is_c09 && args.worker.is_none() && args.replay.is_none() {
+	let post: Option<orch::Post<'_>> = if prop == "C09" && args.worker.is_none() && args.replay.is_none() {
 		Some(Box::new(move |cov, viols| {
 			// the model itself, exhaustively: every reachable state for a bounded number of sends
 			let (sends, alpha): (usize, Vec<scen::Op>) = match tier {
@@ -122,6 +121,51 @@ fn main() {
 			cov.insert("jobmodel_stateright_states".into(), serde_json::json!(total_states));
 			cov.insert("jobmodel_stateright_max_depth".into(), serde_json::json!(depth));
 			cov.insert("jobmodel_bound".into(), serde_json::json!(format!("<= {sends} sends over the {}-operation alphabet, grace in {{0,2}}, <= 3 child exits", alpha.len())));
+		}))
+	} else if prop == "C07" && args.worker.is_none() && args.replay.is_none() {
+		Some(Box::new(move |cov, viols| {
+			// LOOM leg: thread interleavings of the real flag.rs
+			let bound = match tier {
+				orch::Tier::Quick => "3",
+				orch::Tier::Thorough => "4",
+			};
+			let out = std::process::Command::new("/verif/loomleg/run.sh").arg(bound).output();
+			match out {
+				Err(e) => {
+					cov.insert("loom_leg".into(), serde_json::json!(format!("not run: {e}")));
+				}
+				Ok(o) => {
+					let text = String::from_utf8_lossy(&o.stdout).to_string();
+					let mut bodies = vec![];
+					let mut total = 0u64;
+					for l in text.lines().filter(|l| l.starts_with("LOOM body=")) {
+						let get = |k: &str| l.split_whitespace().find_map(|t| t.strip_prefix(&format!("{k}="))).unwrap_or("").to_string();
+						let (name, ok, n) = (get("body"), get("ok") == "true", get("interleavings").parse::<u64>().unwrap_or(0));
+						total += n;
+						bodies.push(serde_json::json!({"body": name, "ok": ok, "interleavings": n}));
+						if !ok {
+							viols.push(orch::ViolationRec {
+								property: "C07".into(),
+								key: format!("C07/loom/{name}/lost-wake-up-or-deadlock"),
+								detail: l.to_string(),
+								harness: "loomleg".into(),
+								scenario: serde_json::json!({"loom_body": name, "preemption_bound": bound}),
+								bounds: None,
+								choices: vec![],
+								log: vec![],
+								count: 1,
+							});
+						}
+					}
+					if o.status.code() == Some(2) || bodies.is_empty() {
+						// machinery problem in the leg: recorded, not a verdict
+						cov.insert("loom_leg".into(), serde_json::json!(format!("machinery error: {}", String::from_utf8_lossy(&o.stderr).chars().take(300).collect::<String>())));
+						eprintln!("MACHINERY-WARNING property=C07 loom leg did not run: {}", String::from_utf8_lossy(&o.stderr).chars().take(300).collect::<String>());
+					} else {
+						cov.insert("loom_leg".into(), serde_json::json!({"preemption_bound": bound, "bodies": bodies, "interleavings_total": total}));
+					}
+				}
+			}
 		}))
 	} else {
 		None
